@@ -181,6 +181,12 @@ def run(ctx):
     rm.api_leaves_replay_state_clause(ctx, res, 'C03', 'C03.j')
     rm.ordinals_only_when_intercepted_clause(ctx, res, 'C03', 'C03.k')
     from . import common as _ci
+    _ci.import_clauses(ctx, res, 'C20', ['C20.a', 'C20.e'], 'C03', 'C03.m', 'R-DECISION',
+                       'file data handler: content is captured for every file within the configured limit (limit source and size test)', floor=4)
+    _ci.import_clauses(ctx, res, 'C11', ['C11.b'], 'C03', 'C03.n', 'R-WHOCALLS',
+                       'recorded outputs handed to the caller of play() are copies: the stored entries cannot be changed through them', floor=1)
+    _ci.import_clauses(ctx, res, 'C07', ['C07.c'], 'C03', 'C03.o', 'R-PROV',
+                       'a fetch returns a fresh decoding of what is stored (no kept object that an earlier caller may have changed)', floor=3)
     _ci.import_clauses(ctx, res, 'C12', ['C12.a', 'C12.d'], 'C03', 'C03.l', 'R-ORDER',
                        'recording through the asynchronous cassette stores every captured entry (each buffered write applied once, in order)', floor=2)
     # ---- C03.h the helpers that build the operation entry and the keys keep no state between calls
